@@ -57,6 +57,55 @@ pub fn check_message(msg: &str, bytes: &[u8], lay: &Layout, by_fee: bool) -> Opt
             return Some((format!("dump-mismatch:{code}"), format!("quoted bytes {:02X?} are not the bytes stored at {off:#x}: {}", dump, first_line(msg))));
         }
     }
+    // header field values quoted in the first line of an RDH-level message ("pages_counter = 5 expected: 2",
+    // "BC = 0xdec", "Orbit changed from 0x1 to 0x2", ...): the value said to be the RDH's is the one stored there
+    if let Some(w) = lay.packet_at(off) {
+        let line = msg.lines().next().unwrap_or("").to_string();
+        let r = &w.rdh;
+        let same = |x: &Rdh| if by_fee { x.fee_id == r.fee_id } else { x.link_id == r.link_id };
+        let prev = lay.walked.iter().filter(|x| x.offset < off && same(&x.rdh)).last().map(|x| &x.rdh);
+        let mut quotes: Vec<(&str, u64)> = vec![
+            ("pages_counter = ", r.pages_counter as u64),
+            ("stop_bit = ", r.stop_bit as u64),
+            ("stop bit = ", r.stop_bit as u64),
+            ("BC = ", r.bc as u64),
+            ("Header ID = ", r.header_id as u64),
+            ("Header size = ", r.header_size as u64),
+            ("system_id = ", r.system_id as u64),
+            ("Priority bit = ", r.priority as u64),
+            ("dw = ", r.dw as u64),
+            ("data format = ", r.data_format as u64),
+            ("stave number = ", (r.fee_id & 0x3F) as u64),
+            ("layer = ", ((r.fee_id >> 12) & 7) as u64),
+            ("Orbit same as previous ", r.orbit as u64),
+        ];
+        if let Some(p) = prev {
+            quotes.push(("Orbit changed from ", p.orbit as u64));
+            quotes.push(("Trigger type changed from ", p.trigger_type as u64));
+            quotes.push(("FeeId changed from ", p.fee_id as u64));
+        }
+        for (key, want) in quotes {
+            if let Some(got) = quoted_number(&line, key) {
+                if got != want {
+                    let code = codes.first().cloned().unwrap_or_else(|| "no-code".into());
+                    return Some((format!("quoted-field-mismatch:{code}:{}", key.trim().trim_end_matches('=').trim().replace(' ', "_")), format!("the message quotes `{key}{got}` but the RDH at {off:#x} holds {want} ({want:#x}): {line}")));
+                }
+            }
+        }
+        for (key, want) in [("Orbit changed from ", r.orbit as u64), ("Trigger type changed from ", r.trigger_type as u64), ("FeeId changed from ", r.fee_id as u64)] {
+            // "... changed from A to B": B is the current RDH's value
+            if let Some(i) = line.find(key) {
+                if let Some(j) = line[i..].find(" to ") {
+                    if let Some(got) = quoted_number(&line[i + j..], " to ") {
+                        if got != want {
+                            let code = codes.first().cloned().unwrap_or_else(|| "no-code".into());
+                            return Some((format!("quoted-field-mismatch:{code}:changed-to"), format!("the message says the value changed to {got:#x} but the RDH at {off:#x} holds {want:#x}: {line}")));
+                        }
+                    }
+                }
+            }
+        }
+    }
     // RDH context rows
     let mut prev_rows: Vec<Vec<String>> = Vec::new();
     let mut cur_row: Option<Vec<String>> = None;
@@ -86,6 +135,19 @@ pub fn check_message(msg: &str, bytes: &[u8], lay: &Layout, by_fee: bool) -> Opt
         }
     }
     None
+}
+
+/// The number that follows `key` in `line` (0x-prefixed hexadecimal or decimal).
+fn quoted_number(line: &str, key: &str) -> Option<u64> {
+    let i = line.find(key)? + key.len();
+    let rest = &line[i..];
+    if let Some(h) = rest.strip_prefix("0x").or_else(|| rest.strip_prefix("0X")) {
+        let d: String = h.chars().take_while(|c| c.is_ascii_hexdigit()).collect();
+        u64::from_str_radix(&d, 16).ok()
+    } else {
+        let d: String = rest.chars().take_while(|c| c.is_ascii_digit()).collect();
+        d.parse().ok()
+    }
 }
 
 fn first_line(m: &str) -> String {
